@@ -36,32 +36,57 @@ LAMPORTS_PER_SOL == BOfInt(1000000000)
 PoolsOf(s) == IF Has(s, "pools") THEN s.pools ELSE <<>>
 PoolFor(s, mint, solpool) == {pn \in DOMAIN PoolsOf(s) : s.pools[pn].mint = mint /\ s.pools[pn].sol_pool = solpool}
 
+\* Kamino-backed collateral (setup 6): the Pyth price and confidence of the underlying token, multiplied by the reserve's
+\* liquidity-per-collateral ratio.  The ratio is taken exactly as the adapter computes it (both supplies divided by
+\* 10^decimals, then divided, all in I80F48; whether that ratio is faithful to the venue is C20's business), a reserve
+\* that was not refreshed in the current slot makes the price unusable.
+SETUP_KAMINO_PYTH == 6
+ReservesOf(s) == IF Has(s, "reserves") THEN s.reserves ELSE <<>>
+Shr12(x) == BFloorDiv(x, BPow2(12))
+ReserveTotalBits(r) == BSub(BSub(BSub(BAdd(BMul(r.avail, TWO48), Shr12(r.borrowed_sf)), Shr12(r.protocol_sf)), Shr12(r.referrer_sf)), Shr12(r.pending_sf))
+TruncDiv(a, b) == IF BIsNeg(a) THEN BNeg(BFloorDiv(BNeg(a), b)) ELSE BFloorDiv(a, b)
+ReserveRatioBits(r) ==
+  LET sc == BPow10(r.dec)
+      liqS == TruncDiv(ReserveTotalBits(r), sc)
+      colS == BFloorDiv(BMul(r.supply, TWO48), sc)
+  IN IF BIsZero(colS) THEN TWO48 ELSE TruncDiv(BMul(liqS, TWO48), colS)
+KaminoAdj(raw, ratioBits) == BFloorDiv(BMul(raw, ratioBits), TWO48)
+
 \* Price record for bank bn as presented in event e at state s.  ptype in {"RT","TW"}.
 \* usable in {"yes","no","maybe"} ("maybe" = within rounding of the confidence threshold: don't care)
 RefPrice(s, e, bn, ptype) ==
   LET b == s.banks[bn] setup == b.cfg.oracle_setup now == s.clock.ts IN
   IF setup = SETUP_FIXED THEN [usable |-> "yes", known |-> TRUE, p |-> R(b.cfg.fixed_price), ci |-> RZero]
-  ELSE IF setup \notin {SETUP_PYTH, SETUP_SWB, SETUP_STAKED} THEN [usable |-> "maybe", known |-> FALSE, p |-> RZero, ci |-> RZero]
+  ELSE IF setup \notin {SETUP_PYTH, SETUP_SWB, SETUP_STAKED, SETUP_KAMINO_PYTH} THEN [usable |-> "maybe", known |-> FALSE, p |-> RZero, ci |-> RZero]
+  ELSE IF setup = SETUP_KAMINO_PYTH /\ ~Has(ReservesOf(s), b.cfg.oracle_keys[2]) THEN [usable |-> "maybe", known |-> FALSE, p |-> RZero, ci |-> RZero]
   ELSE
   LET key == b.cfg.oracle_keys[1] pres == PresentedOracle(e, bn, b)
       staked == setup = SETUP_STAKED
+      kam == setup = SETUP_KAMINO_PYTH
       pools == IF staked THEN PoolFor(s, b.cfg.oracle_keys[2], b.cfg.oracle_keys[3]) ELSE {}
-      slotsOk == staked => (PresentedSlot(e, bn, b, 2) = b.cfg.oracle_keys[2] /\ PresentedSlot(e, bn, b, 3) = b.cfg.oracle_keys[3])
+      slotsOk == /\ staked => (PresentedSlot(e, bn, b, 2) = b.cfg.oracle_keys[2] /\ PresentedSlot(e, bn, b, 3) = b.cfg.oracle_keys[3])
+                 /\ kam => PresentedSlot(e, bn, b, 2) = b.cfg.oracle_keys[2]
   IN
   IF pres # key \/ ~Has(s.oracles, key) \/ ~slotsOk THEN [usable |-> "no", known |-> TRUE, p |-> RZero, ci |-> RZero]
   ELSE IF staked /\ pools = {} THEN [usable |-> "maybe", known |-> FALSE, p |-> RZero, ci |-> RZero]
   ELSE
   LET o == s.oracles[key]
       pool == IF staked THEN s.pools[CHOOSE pn \in pools : TRUE] ELSE [stake |-> BZero, supply |-> BOne, state |-> "stake"]
-      poolOk == staked => (pool.state = "stake" /\ BIsPos(pool.supply) /\ BGe(pool.stake, LAMPORTS_PER_SOL))
+      res == IF kam THEN s.reserves[b.cfg.oracle_keys[2]] ELSE [slot |-> BZero, owner_ok |-> TRUE]
+      ratio == IF kam THEN ReserveRatioBits(res) ELSE TWO48
+      poolOk == /\ staked => (pool.state = "stake" /\ BIsPos(pool.supply) /\ BGe(pool.stake, LAMPORTS_PER_SOL))
+                \* the reserve must be the venue's account and refreshed in the current slot; a negative ratio is an arithmetic failure
+                /\ kam => (res.owner_ok /\ BGe(res.slot, s.clock.slot) /\ ~BIsNeg(ratio))
       \* raw integer price scaled by the pool's exchange rate (truncating division, as the adapter does before anything else)
-      Adj(raw) == IF staked /\ poolOk THEN BFloorDiv(BMul(raw, BSub(pool.stake, LAMPORTS_PER_SOL)), pool.supply) ELSE raw
-      kindOk == (setup \in {SETUP_PYTH, SETUP_STAKED} /\ o.kind = "pyth") \/ (setup = SETUP_SWB /\ o.kind = "swb")
+      Adj(raw) == IF staked /\ poolOk THEN BFloorDiv(BMul(raw, BSub(pool.stake, LAMPORTS_PER_SOL)), pool.supply)
+                  ELSE IF kam /\ poolOk THEN KaminoAdj(raw, ratio) ELSE raw
+      AdjC(raw) == IF kam /\ poolOk THEN KaminoAdj(raw, ratio) ELSE raw
+      kindOk == (setup \in {SETUP_PYTH, SETUP_STAKED, SETUP_KAMINO_PYTH} /\ o.kind = "pyth") \/ (setup = SETUP_SWB /\ o.kind = "swb")
       authentic == kindOk /\ o.owner_ok /\ o.discr_ok /\ o.live /\ (o.kind = "pyth" => o.verif_ok) /\ poolOk
       age == BSub(now, o.ts)
       fresh == BLe(age, BOfInt(MaxAge(b)))
       p == IF o.kind = "pyth" THEN Scale10(Adj(IF ptype = "RT" THEN o.price ELSE o.ema), o.expo) ELSE RMake(o.swb_value, E18)
-      c0 == IF o.kind = "pyth" THEN RMul(Scale10(IF ptype = "RT" THEN o.conf ELSE o.ema_conf, o.expo), K_PYTH)
+      c0 == IF o.kind = "pyth" THEN RMul(Scale10(AdjC(IF ptype = "RT" THEN o.conf ELSE o.ema_conf), o.expo), K_PYTH)
             ELSE RMul(RMake(o.swb_std, E18), K_SWB)
       maxc == RMul(p, MaxConfRatio(b))
       slackc == RMul(TINY, RAdd(ROne, RAdd(RAbs(p), c0)))
